@@ -1805,6 +1805,11 @@ def _c10_route_scenario(sc, x, rng):
             s_ = {"op": rng.choice(["AdaptErr", "AdaptOut"]), "d": rng.randint(0, 6)}
         steps.append(s_)
         steps.append(dict(base))
+    if prim == "buffer":
+        # Logger::log_to_buffer with a small memory buffer: lines of every length around its size
+        cfg["bufmax"] = rng.choice([24, 48, 64])
+        for ln in range(1, cfg["bufmax"] + 4):
+            steps.append(dict(base, msghex=("x" * ln).encode().hex()))
     return {"sc": sc, "cfg": cfg, "t0": 34560000, "steps": steps, "origin": "tlc:MCRobust_std",
             "tag": {"outc": x["cfg"]["outc"], "ops": "+".join(x["steps"])}}
 
@@ -1820,6 +1825,7 @@ def C10(tier, seed):
     import json
     import os
     import random
+    import re
     import shutil
     import subprocess
     import time
@@ -1946,14 +1952,58 @@ def C10(tier, seed):
         transitions += g2["transitions"]
         nstd_all = len(reps2)
         lim2 = 600 if tier == "quick" else 20000
+        # every output class at least a few times, whatever the sample
+        byc = {}
+        for x in reps2:
+            byc.setdefault(x["cfg"]["outc"], []).append(x)
         if nstd_all > lim2:
             rng.shuffle(reps2)
-            reps2 = reps2[:lim2]
+            keep = [x for v in byc.values() for x in v[:12]]
+            reps2 = keep + [x for x in reps2 if x not in keep][:max(0, lim2 - len(keep))]
         rscens = [_c10_route_scenario(100001 + k, x, rng) for k, x in enumerate(reps2)]
         res2 = C.run_sharded(pid, "MonC10r", rscens, wd, sub="route")
-        C.log(f"[C10] output classes: {nstd_all} combinations (13 output classes x sequences of 3 of 7 operation classes) from TLC, "
+        C.log(f"[C10] output classes: {nstd_all} combinations (14 output classes x sequences of 3 of 7 operation classes) from TLC, "
               f"{len(rscens)} executed through the whole logger ({res2['events']} events); judged by MonC10r.tla; "
               f"{len(res2['bads'])} predicate failures; counters {res2['counts']}")
+        # the memory buffer (Logger::log_to_buffer): BufW.tla model-checked (FIFO, limit, newest line present, no needless
+        # eviction, no deadlock, every call returns); the as-found variant (format under the lock) must deadlock, the
+        # variant evicting at equality must evict needlessly; then conform mode over the recorded buffer contents
+        rb = C.run_tlc("MCBufW.tla", os.path.join(C.SPEC, "MCBufW_q.cfg"), os.path.join(wd, "mc-bufw"), workers=2, timeout=900)
+        if rb["violated"]:
+            raise C.ToolError(f"BufW violates {rb['violated']}")
+        states += rb["states"]
+        transitions += rb["transitions"]
+        for mcfg, must in (("MCBufW_asfound.cfg", "NoDeadlock"), ("MCBufW_mut.cfg", "NoNeedlessEviction")):
+            rm = C.run_tlc("MCBufW.tla", os.path.join(C.SPEC, mcfg), os.path.join(wd, "mc-" + mcfg), workers=1, timeout=300)
+            if must not in (rm["violated"] or []):
+                raise C.ToolError(f"BufW/{mcfg} must violate {must}")
+        bufconf = {"lines": 0, "checked": 0, "unexplained": []}
+        for tf in res2["traces"]:
+            if '"buffer":true' not in open(tf).read():
+                continue
+            try:
+                rt = C.run_tlc("TraceBufW.tla", os.path.join(C.SPEC, "TraceBufW.cfg"), os.path.join(wd, "bufw-" + os.path.basename(tf)),
+                               workers=1, timeout=900, env={"TRACE": tf}, xmx="3g")
+            except C.ToolError as ex:
+                C.log(f"NOTE: conform mode (BufW) did not complete on {os.path.basename(tf)}: {str(ex)[:200]}")
+                continue
+            nl = sum(1 for _ in open(tf))
+            consumed = checked = 0
+            for tag, rest in rt["printed"]:
+                if tag == "CONSUMED":
+                    consumed = int(re.findall(r"\d+", rest)[0])
+                elif tag == "STAT":
+                    checked = int(re.findall(r"\d+", rest)[0])
+            bufconf["lines"] += nl
+            bufconf["checked"] += checked
+            if consumed != nl:
+                e_ = json.loads(open(tf).readlines()[max(0, rt["depth"] - 1)])
+                bufconf["unexplained"].append([e_.get("sc"), e_.get("n")])
+                C.log(f"NOTE: conform mode (BufW): scenario {e_.get('sc')} event {e_.get('n')}: the memory buffer is not the "
+                      f"specification's ({e_.get('snap')})")
+        C.log(f"[C10] TLC MCBufW_q.cfg: {rb['states']} distinct states (memory buffer: FIFO, limit, newest present, no needless "
+              f"eviction, no deadlock, calls return; as-found variant deadlocks); conform mode: {bufconf['checked']} buffer "
+              f"writes of the real code explained by BufW.tla, {len(bufconf['unexplained'])} unexplained")
         v2, k2 = C.triage(pid, res2["bads"], res2["traces"], res2["scen_files"], extra_facts=_c10_route_facts, executor="route",
                           monitor="MonC10r")
         viols, known = C.triage(pid, bads, traces, scen_files)
@@ -1966,7 +2016,9 @@ def C10(tier, seed):
         for v in viols[:10]:
             C.log(f"VIOLATION property={pid} replay={v['replay']}")
             C.log(f"   predicate {v['pred']} failed at scenario {v['sc']} event {v['n']}; facts {v['facts']}")
-        cov = {"evaluations": nsc, "distinct_nontrivial": len({json.dumps([s_["cfg"], s_["steps"]], sort_keys=True) for s_ in scens}),
+        cov = {"memory_buffer": {"spec": "BufW.tla", "states": rb["states"], "conform_writes_checked": bufconf["checked"],
+                                 "trace_lines": bufconf["lines"], "unexplained": bufconf["unexplained"][:20]},
+               "evaluations": nsc, "distinct_nontrivial": len({json.dumps([s_["cfg"], s_["steps"]], sort_keys=True) for s_ in scens}),
                "rule": "TLC enumerates every combination (directory class x naming x format class x append) x every sequence of 2 "
                        "operation classes of Robust.tla; each combination is instantiated with fixed representatives and seeded "
                        "random members (random Unicode targets / specification strings, 64 KiB - 1 MiB messages); a watchdog turns "
